@@ -1,7 +1,8 @@
 import WebPkg.Driver.OpsCbor
+import WebPkg.Driver.OpsMice
 open WebPkg.Driver
 
-def handlers : List (String → List String → Option String) := [handleCbor]
+def handlers : List (String → List String → Option String) := [handleCbor, handleMice]
 
 def dispatch (op : String) (args : List String) : String :=
   match handlers.findSome? (fun h => h op args) with
